@@ -56,13 +56,14 @@ Definition check_case (c : jcase) : bool :=
       match hamiltonian legacy P ins L with
       | Err e => String.eqb e err
       | Ok H =>
-          String.eqb err ""
-          && poly_close tol (normalize H) terms
-          && match n_qubits ins L with Ok n => qubits_below n H | Err _ => false end
-          && match prepare_encoding ins L with
-             | Ok e => result_eqb (list_eqb (list_eqb Nat.eqb)) (counts_of e) (Ok counts)
-             | Err _ => false
-             end
+          (* nested ifs, not &&: vm_compute evaluates arguments eagerly and normalising is the expensive part *)
+          if negb (String.eqb err "") then false
+          else if negb (poly_close tol (normalize H) terms) then false
+          else if negb (match n_qubits ins L with Ok n => qubits_below n H | Err _ => false end) then false
+          else match prepare_encoding ins L with
+               | Ok e => result_eqb (list_eqb (list_eqb Nat.eqb)) (counts_of e) (Ok counts)
+               | Err _ => false
+               end
       end
   | JDecodeAll ins L starts =>
       match n_qubits ins L with
